@@ -48,6 +48,21 @@ CHECKS = {
  "C11": dict(engine="E1", technique="explicit-state search over (flow fingerprint, consumed, arrived) with look and give-up possible at every prefix of every interim/refusal head",
              text="For every Expect request x server script the complete graph with 1-byte arrivals is explored: try_read_100 at every window while can_keep_await_100, give-up at every prefix, then both later paths to Cleanup. Checks: nothing decided/consumed inside or right after the status line; bare 100 consumed exactly; other responses consume nothing, lead to RecvResponse returning that very response, never to a body write, and end must-close; late 100 skipped exactly once; body bytes all-or-nothing; every branch reaches Cleanup.",
              note="Windows strictly between status line and head end of a refusal with fields may be undecided or decided (the statement leaves it open). 3xx refusal windows after a complete Location line are excluded (C05/KF1).", ref="4/C11"),
+ "C02": dict(engine="E1", technique="explicit-state search of the real head writer per request: every reachable line-index state x EVERY buffer size 0..=|head|+1, independent head parser + reference header list as oracle",
+             text="For ~8500 (quick) / ~50000 (thorough) valid requests (header lists over a pool incl. repeated names, non-UTF-8 values, explicit/missing Host, one framing header, despite-method, long lists up to 60+5, flows at redirect depth 1..3) and the three front ends, the complete graph of the writer is explored: from every state a write with every buffer size, and again after completion. The single-call head is parsed back and compared with the reference (request line, caller-added first in order, then exactly the originals, exactly one Host derived from the URI host, exactly the framing header the body uses); every call must emit whole units continuing the same bytes, overflow exactly when the next line does not fit and without lasting effect, nothing after completion, body writer undisturbed.",
+             note="Original headers are compared as a multiset with per-name order (the statement does not order them); for the glued last line both overflow readings are accepted in the 2-byte ambiguous range.", ref="4/C02"),
+ "C12": dict(engine="E1+E2", technique="explicit-state search over (flow fingerprint, unconsumed window, budget) = all strings over protocol alphabets up to a bound in all segmentations, plus exhaustive single/double fault enumeration of valid exchanges",
+             text="(a) From flows in Await100 / RecvResponse / RecvBody (chunked with boundary stop off/on, length, close) every string over a 10-byte or 25-token alphabet up to the bound is fed in every segmentation (append-symbol and call actions), continuing through proceed into later states. (b) Every single fault (bit flips, deletions, duplications, insertions, number replacements, splices) of 12 seed exchanges, thorough also double faults of the 4 shortest, is driven through four request kinds x {single call, 1-byte arrivals} x output {1, large}. (c) Oversize and over-count shapes. Oracle everywhere: call returns (no panic, watchdog), counts within bounds, produced bytes are an in-order copy of consumed bytes, state-advancing calls afterwards do not panic, driver terminates within its horizon.",
+             note="In family (a) the 350-byte fingerprint is folded to 128 bits in the state key (window and budget verbatim); bounds: 5/6 bytes, 3/4 tokens. The quantifier's 'random arrival and buffer schedules' is replaced by the complete segmentation graph (a) and a fixed schedule menu (b).", ref="4/C12"),
+ "C13": dict(engine="E1", technique="explicit-state search of the redirect-chain graph to depth 4 with the real Prepare flow in each state; wire head read back with an independent parser",
+             text="18 original requests; at every hop every status {301,302,303,307,308} x 16 Locations (hosts, ports, schemes both directions, relative forms) x both policies chosen independently - all chains of length 1..4 via fingerprint merging. In every state the redirected head is written under two buffer schedules and must carry no inherited Cookie / Content-Length, and Authorization only if SameHost and host(target)=host(original) and scheme equal or https; an unrelated header must survive.",
+             note="Credential values are recognised by marker text (S3CRET, ORIG). Redirected requests the library refuses to write emit nothing and end the chain.", ref="4/C13"),
+ "C14": dict(engine="E1", technique="explicit-state search of the redirect-chain graph to depth 3/4 against an RFC 3986 section 5.2 reference resolver that tracks its own current URI",
+             text="4 base URIs x at every hop 2 statuses x ~57 Location shapes (absolute/scheme-relative/path-absolute/relative with dot segments, query-only, empty, fragments, several Location fields, malformed and non-UTF-8 values) x both policies. The new flow's URI must equal the reference resolution against the CURRENT URI on components (scheme, host, effective port, path, query, no fragment); malformed values must be errors; each state's request line and Host header must match the reference URI.",
+             note="http/https only; comparison on components because the implementation uses the WHATWG url crate; the reference is written from the RFC and unit-tested against the RFC's own examples.", ref="4/C14"),
+ "C16": dict(engine="E1", technique="all states of a redirect-chain graph (depth 0..3) x all caller-addition sequences up to length 3/4, wire head read back",
+             text="Every Prepare flow reachable in a small redirect-chain graph (both policies, same/cross host, scheme upgrade) gets every sequence of header() calls of length 0..=3 (thorough 4) over an 8-entry pool incl. cookie, authorization, content-length, host, connection, mixed-case names, plus long sequences up to 60; the head on the wire must contain every added pair in order ahead of every original header while inherited same-named headers stay suppressed.",
+             note="Restricted to requests the validity model accepts (C17 owns the rest).", ref="4/C16"),
 }
 ALL = ["C%02d" % i for i in range(1, 21)]
 NA_REASON = "check not built yet (work in progress; not a claim that model checking cannot apply)"
